@@ -5,6 +5,20 @@ import os, re, subprocess, shutil, time, glob
 EXPLAINED = ('the code notifies registered sync waiters one after the other inside one critical section, the model notifies them '
              'in one step: with two or more live waiters on one queue a waiter can be seen to react between two notifications')
 
+def run_quiet(cmd, idle=100, timeout=1200):
+    """runs the log-producing runner; killed when it stops making progress (an execution blocking the whole process for real)"""
+    import tempfile
+    t0 = time.time()
+    with tempfile.TemporaryFile() as f:
+        p = subprocess.Popen(cmd, stdout=f, stderr=subprocess.STDOUT)
+        last, size = time.time(), 0
+        while p.poll() is None:
+            time.sleep(2)
+            n = os.fstat(f.fileno()).st_size
+            if n != size: size, last = n, time.time()
+            if time.time() - last > idle or time.time() - t0 > timeout: p.kill(); break
+        p.wait()
+
 def run(cfg, tier, seed, V, RUNNER):
     if cfg.get('kind') == 'pipein': return run_pipein(cfg, tier, seed, V, RUNNER)
     if cfg.get('kind') == 'pipe': return run_pipein(cfg, tier, seed, V, RUNNER, sub='pipe', exe='replay_pipe', name='pipe-replay')
@@ -25,7 +39,7 @@ def run(cfg, tier, seed, V, RUNNER):
         cmd = [RUNNER, 'run', '--seed', str(seed + 17), '--scheds', str(scheds), '--logdir', d, '--no-touch-yield']
         if pr['name'] == 'corpus': cmd += ['--progs', os.path.join(V, 'corpus', 'l1.progs')]
         else: cmd += ['--profile', pr['name'], '--count', str(count)] + pr.get('extra', [])
-        subprocess.run(cmd, stdout=subprocess.DEVNULL, stderr=subprocess.DEVNULL, timeout=1200)
+        run_quiet(cmd)
         logs = sorted(glob.glob(os.path.join(d, '*.log')))
         for i in range(0, len(logs), 400):
             p = subprocess.run([replay] + logs[i:i + 400], stdout=subprocess.PIPE, stderr=subprocess.STDOUT, timeout=1200)
@@ -69,7 +83,7 @@ def run_pipein(cfg, tier, seed, V, RUNNER, sub='pipein', exe='replay_pipein', na
         cmd = [RUNNER, 'run', '--seed', str(seed + 23), '--scheds', str(scheds), '--logdir', d, '--no-touch-yield', '--max-steps', '30000']
         if pr['name'].startswith('progs:'): cmd += ['--progs', os.path.join(V, 'corpus', pr['name'][6:])]
         else: cmd += ['--profile', pr['name'], '--count', str(count)] + pr.get('extra', [])
-        subprocess.run(cmd, stdout=subprocess.DEVNULL, stderr=subprocess.DEVNULL, timeout=1200)
+        run_quiet(cmd)
         logs = sorted(glob.glob(os.path.join(d, '*.log')))
         for i in range(0, len(logs), 400):
             p = subprocess.run([replay] + logs[i:i + 400], stdout=subprocess.PIPE, stderr=subprocess.STDOUT, timeout=1200)
